@@ -37,7 +37,8 @@ def plan(tier, seed):
     shards = [{"item": {"kind": "matrix"}, "seed": seed, "n": 25 if tier == "quick" else 300},
               {"item": {"kind": "features"}, "seed": seed, "n": 10}]
     for i in range(8 if tier == "quick" else 120):
-        shards.append({"item": {"kind": "gen", "seed": seed * 100003 + 9000 + i, "opts": {"names": "keywords", "services": True}},
+        shards.append({"item": {"kind": "gen", "seed": seed * 100003 + 9000 + i,
+                                "opts": {"names": "hostile" if i % 4 == 3 else "keywords", "services": True}},
                        "seed": seed * 17 + i, "n": 12 if tier == "quick" else 60})
     for d in ("service", "example_service", "googletypes_response", "import_service_input_message", "service_separate_packages",
               "oneof_enum", "proto3_field_presence", "googletypes_request"):
@@ -207,7 +208,8 @@ def _compare_structure(s0, s1, cfg_sig, name, cfg, res: Result, w):
             for key in ("name", "proto_type", "group", "map_types", "wraps", "type"):
                 res.counters["comparisons"] += 1
                 if f0[key] != f1[key]:
-                    res.violation("structure", [cfg_sig, "field-" + key, f0["proto_type"]],
+                    mech = ":builtin-name-shadowed-by-field" if ("Field(name=" in str(f0[key]) or "Field(name=" in str(f1[key])) else ""
+                    res.violation("structure", [cfg_sig, "field-" + key + mech, f0["proto_type"]],
                                   f"{name} [{cfg}]: {full} field #{num} {key}: default {f0[key]!r} vs {f1[key]!r}", w)
     for full, e0 in s0["enums"].items():
         e1 = s1["enums"].get(full)
